@@ -403,6 +403,9 @@ pub enum TsTamper {
     Plus1,
     Minus1,
     TopBit,
+    /// the timestamp replaced by a value derived from it the way a unit, width or byte-order mix-up would: byte-reversed,
+    /// bit-reversed, complemented, halves exchanged, low 32 bits only, seconds for milliseconds and back, negated
+    Derived(u8),
     /// proof components
     UAddG,
     VNeg,
@@ -524,6 +527,9 @@ impl<C: Suite> Model for M10T<C> {
             for t in [TsTamper::Plus1, TsTamper::Minus1, TsTamper::TopBit] {
                 a.push(TAct::Tamper(t));
             }
+            for k in 0..8u8 {
+                a.push(TAct::Tamper(TsTamper::Derived(k)));
+            }
             if *tg == 2 {
                 for t in [TsTamper::UAddG, TsTamper::VNeg, TsTamper::MsgOther, TsTamper::PkOther, TsTamper::Transport(Codec::Bytes), TsTamper::Transport(Codec::Bare), TsTamper::Transport(Codec::Json)] {
                     a.push(TAct::Tamper(t));
@@ -590,6 +596,22 @@ impl<C: Suite> Model for M10T<C> {
                     TsTamper::Plus1 => p.timestamp = p.timestamp.wrapping_add(1),
                     TsTamper::Minus1 => p.timestamp = p.timestamp.wrapping_sub(1),
                     TsTamper::TopBit => p.timestamp ^= 1 << 63,
+                    TsTamper::Derived(k) => {
+                        let t = p.timestamp;
+                        let n = match k {
+                            0 => t.swap_bytes(),
+                            1 => t.reverse_bits(),
+                            2 => !t,
+                            3 => t.rotate_left(32),
+                            4 => t & 0xffff_ffff,
+                            5 => t / 1000,
+                            6 => t.wrapping_mul(1000),
+                            _ => t.wrapping_neg(),
+                        };
+                        // (a value that maps to itself is no alteration)
+                        tampered = n != t;
+                        p.timestamp = n;
+                    }
                     TsTamper::UAddG => p.proof = mk_pok::<C>(*s, u + SgP::<C>::generator(), v),
                     TsTamper::VNeg => p.proof = mk_pok::<C>(*s, u, -v),
                     TsTamper::MsgOther => vmsg.push(0),
